@@ -3,6 +3,8 @@ extent and lifetime discipline as far as a TLA+ model can decide it; see DESIGN.
 import json
 import os
 import random
+import re
+import shutil
 import time
 
 import chancheck
@@ -22,11 +24,48 @@ def zero_cases():
     return out
 
 
+BAD_ACCESS = re.compile(r"^==\d+== (Invalid (read|write|free)|Mismatched free|Source and destination overlap|"
+                        r"Syscall param \S+ points to unaddressable|Jump to the invalid address|"
+                        r"Process terminating with default action of signal 11)")
+
+
+def memcheck(wd, cases, cap, n, rnd):
+    """The TLC-generated message shapes once more, with valgrind's memory checker as the observer: every access of the
+    process and every buffer handed to the kernel (recvmsg's control buffer at its announced length!) lies inside a live
+    allocation, nothing is freed twice. Uninitialised padding of control messages handed to sendmsg is not counted (the
+    kernel ignores it). Returns (cases run, [error block, ...])."""
+    if not shutil.which("valgrind"):
+        raise ToolError("valgrind not found")
+    soft = [c for c in cases if not c.get("hard")]
+    full = [c for c in soft if c["natt"] >= cap - 1]
+    rest = [c for c in soft if c["natt"] < cap - 1]
+    pick = rnd.sample(full, min(len(full), n // 2)) + rnd.sample(rest, min(len(rest), n - min(len(full), n // 2)))
+    pick = [dict(c, id=i + 1) for i, c in enumerate(pick)]
+    logf = os.path.join(wd, "memcheck.log")
+    if os.path.exists(logf):
+        os.remove(logf)
+    results, _ = fragcheck.replay(wd, "memcheck", 4096, pick, trace=False, timeout=2400,
+                                  wrapper=["valgrind", "-q", "--error-limit=no", "--num-callers=14", "--log-file=" + logf])
+    blocks, cur = [], None
+    if os.path.exists(logf):
+        for line in open(logf, errors="replace"):
+            if BAD_ACCESS.match(line):
+                cur = [line.rstrip()]
+                blocks.append(cur)
+            elif cur is not None:
+                if re.match(r"^==\d+== *$", line):
+                    cur = None
+                elif len(cur) < 14:
+                    cur.append(line.rstrip())
+    return pick, results, blocks
+
+
 def run(tier):
     wd = workdir("c18")
     build_harness("os")
     violations, distinct, samples = [], set(), []
     states = transitions = validated = evaluations = 0
+    memchecked = 0
     # 1. message shapes of C01/C13/C15 through the platform layer: FragTrace (receive-window discipline, extents) and the
     #    ledger (control buffers, descriptors) on the same recorded run
     consts = fragcheck.code_constants([4096])
@@ -104,6 +143,22 @@ def run(tier):
             transitions += lr.generated
         samples.append({"part": "shapes", "cases": len(cases), "ledger_events": len(evs), "sample_case": cases[len(cases) // 2]})
         os.remove(raw)
+        # 1b. the same shapes under a memory checker
+        t0 = time.time()
+        picked, mres, blocks = memcheck(wd, cases, cap, 400 if tier == "quick" else 4000, rnd)
+        evaluations += len(mres)
+        memchecked = len(mres)
+        if blocks:
+            sites = {}
+            for b in blocks:
+                site = " | ".join(x.split("== ", 1)[-1].strip() for x in b[:1] + [y for y in b[1:] if "ipc_channel::" in y][:2])
+                sites.setdefault(site, b)
+            for site, b in list(sites.items())[:4]:
+                violations.append({"what": "memory checker (valgrind) on the replayed message shapes: %s" % site[:400],
+                                   "key": "memcheck:" + site[:60],
+                                   "replay": write_replay("C18", "memcheck-%d" % (abs(hash(site)) % 10000),
+                                                          {"property": "C18", "kind": "memcheck", "cases": picked[:200], "report": b})})
+        log("  memcheck: %d shapes under valgrind, %d bad-access reports (%.1fs)" % (len(mres), len(blocks), time.time() - t0))
         log("  shapes: %d cases, FragTrace %s, ledger %s" % (len(cases), "ok" if not (tr.violation or reject) else "REJECT",
                                                              "clean" if not lr.violation else why))
     # 2. zero-length and odd-length regions at both API levels (each batch in a sacrificial process)
@@ -162,11 +217,14 @@ def run(tier):
                           "packet boundary with 0/1/capacity-1/capacity attachments and ENOBUFS retries; (b) the Resources.tla "
                           "ledger on the same runs and on zero/odd-length regions at both API levels: no munmap of a non-mapping "
                           "or with another length, no double free of a control buffer, no close of an unowned descriptor, no "
-                          "slice built from a null base or outside a live mapping. What is NOT decided: accesses no hook "
+                          "slice built from a null base or outside a live mapping; (c) a sample of the same TLC-generated shapes "
+                          "(half of them with capacity-1/capacity attachments) replayed under valgrind memcheck: no invalid read/"
+                          "write/free and no buffer handed to the kernel that reaches beyond its allocation. What is NOT decided: accesses no hook "
                           "reports, use-after-free inside libc/kernel copies, compiler-level UB (the AddressSanitizer run the "
                           "property's quantifier mentions is outside this technique).",
            "states": states, "transitions": transitions, "traces_validated_against_impl": validated,
            "evaluations": evaluations, "distinct_nontrivial": len(distinct), "samples": samples,
+           "shapes_replayed_under_memcheck": memchecked,
            "rule": "message shapes x fault patterns from Frag.tla; region cases = level x constructor x length"}
     return {"level": "other", "coverage": cov, "violations": violations,
             "assumptions": ["hooks at the unsafe sites report real addresses and lengths (src/verif.rs)",
@@ -174,5 +232,17 @@ def run(tier):
 
 
 def replay(rp):
+    if rp.get("kind") == "memcheck":
+        build_harness("os")
+        cap = fragcheck.code_constants([4096])[4096][0]["cmsgcap"]
+        cases = rp["cases"]
+        _, _, blocks = memcheck(workdir("replay"), cases, cap, 2 * len(cases), random.Random(1))
+        for b in blocks[:3]:
+            print("\n".join(b))
+        if blocks:
+            print("VIOLATION property=C18 replay=(this file)")
+            return 1
+        print("no bad access reported now")
+        return 0
     print(json.dumps(rp, indent=1)[:3000])
     return 0
